@@ -1059,6 +1059,7 @@ func (p *partition) handleLeaderOffsetRequest(msg *nats.Msg) {
 // receives a replication request from a follower. It will send messages to the
 // NATS subject specified on the request.
 func (p *partition) handleReplicationRequest(msg *nats.Msg) {
+	defer verifLoopGate("leader.request_handled", p.srv.config.Clustering.ServerID, nil)
 	received := time.Now()
 	req, err := proto.UnmarshalReplicationRequest(msg.Data)
 	if err != nil {
@@ -1618,6 +1619,7 @@ func (p *partition) replicationRequestLoop(leader string, epoch uint64, stop <-c
 		}
 
 		// If we are caught up with the leader, wait for data.
+		verifLoopGate("follower.before_wait", p.srv.config.Clustering.ServerID, stop)
 		wait := p.computeReplicaFetchSleep()
 		select {
 		case <-stop:
@@ -1649,6 +1651,7 @@ func (p *partition) checkLeaderHealth(leader string, epoch uint64, leaderLastSee
 			Leader:      leader,
 			LeaderEpoch: epoch,
 		}
+		verifTrace("follower.report_leader", req)
 		if err := p.srv.metadata.ReportLeader(context.Background(), req); err != nil {
 			p.srv.logger.Errorf("Failed to report leader %s for partition %s: %s",
 				leader, p, err.Err())
